@@ -240,6 +240,7 @@ func serviceSide(ctx context.Context, log *kv.Log, srv *kv.Server) (*typedSide, 
 
 func runTypedScenario(t *testing.T, tr *tracer, idx int, seed uint64) {
 	synctest.Test(t, func(t *testing.T) {
+		reseed(seed, idx) // the library's own randomness (ticker fuzz) follows the scenario's seed
 		r := kv.NewRand(seed*5000011 + uint64(idx))
 		var hookN uint64
 		log := &kv.Log{Hook: func(c, f string) {
